@@ -8,7 +8,7 @@ from contracts import policy_native
 def custom_native(ip, runner):
     code = policy_native.C05 % {'native': os.path.join(VERIF, 'native')}
     return [native_bounded(runner, 'policy-roundtrip', 'Policy(policy_data=Policy.create(...)) loads and passes on the same peer; every single-attribute perturbation fails naming its field; every built-in policy passes on its own peer',
-                           code, '4 peers (incl. names with = + / @, duplicate names, size maps with RSA and Ed25519 CAs) x all single-attribute perturbations (add/insert/remove/reorder/rename per list, +-size per key/CA/modulus, CA type); all built-in policies',
+                           code, '4 hand-written peers + 8 seeded random peers (80 in the thorough tier) drawn from the database and odd-but-legal spellings, random size maps (incl. names with = + / @, duplicate names, size maps with RSA and Ed25519 CAs) x all single-attribute perturbations (add/insert/remove/reorder/rename per list, +-size per key/CA/modulus, CA type); all built-in policies',
                            'Policy.create')]
 
 
